@@ -34,7 +34,8 @@ CLAIMS = {
  "C11": dict(
    engine="store+tiered",
    technique="Lean 4 proof (index invariant by induction over store ops; filter compile correctness by mutual structural induction over all filter trees) + differential correspondence",
-   text="Theorems C11_orderedKey_strictMono (IEEE order vs the BTreeMap key, all non-NaN bit patterns), C11_compile_correct "
+   text="Theorems C11_orderedKey_strictMono (IEEE order vs the BTreeMap key, all non-NaN bit patterns), C11_orderedKey_fits "
+        "(the Nat model of the u64 key stays below 2^64 for every input), C11_compile_correct "
         "and C11_ids_exact (for EVERY filter tree - exact/in/range with any bound/and/or/not, any depth, empty forms - the "
         "inverted-index evaluation selects exactly the live documents whose metadata satisfies metadata_filter::matches), "
         "C11_reachable (the store invariant holds after any sequence of inserts, overwrites, metadata updates, deletes, "
